@@ -358,6 +358,10 @@ def WellSeparated (obs : List Obs) : Prop :=
     l - roundMin o.offFrom < l' - roundMin o'.offFrom →
       roundMin o.offFrom - roundMin o'.offFrom < (l' - roundMin o'.offFrom) - (l - roundMin o.offFrom)
 
+instance (obs : List Obs) : Decidable (WholeMinutes obs) := by unfold WholeMinutes; infer_instance
+instance (obs : List Obs) : Decidable (NamesConsistent obs) := by unfold NamesConsistent; infer_instance
+instance (obs : List Obs) : Decidable (WellSeparated obs) := by unfold WellSeparated; infer_instance
+
 /-- the row a sorted table answers with is a latest row not after `t` -/
 theorem lookup_latest (ts : List Ent) (hs : SortedUTC ts) (t : Int) (e0 : Ent) (h0 : ts.head? = some e0)
     (h0t : e0.utc ≤ t) :
